@@ -236,7 +236,7 @@ func (p *sparser) unary() *SExpr {
 			return &SExpr{Kind: KUnary, Op: t.text, Args: []*SExpr{x}}
 		}
 	}
-	if t.kind == "id" && (t.text == "forall" || t.text == "exists") {
+	if t.kind == "id" && (t.text == "forall" || t.text == "exists") && p.toks[p.pos+1].kind == "id" {
 		p.pos++
 		v := p.next()
 		if v.kind != "id" {
